@@ -235,6 +235,9 @@ CORPUS = [
              {'name': 'I1', 'prefix': 'I1 0 2', 'desc': {'form': 'ac', 'A': '2', 'k': 0, 'w': '3/2'}}]},
     {'netlist': ['V1 1 0 ac 2', 'R1 1 2 1', 'L1 2 0 2', 'L2 3 0 2', 'K1 L1 L2 {1/2}', 'R2 3 0 4', 'C1 3 0 {1/5}'], 'omega_subs': '2',
      'src': [{'name': 'V1', 'prefix': 'V1 1 0', 'desc': {'form': 'ac', 'A': '2', 'k': 0, 'w': '2'}}]},
+    # a source written as one product term with a symbolic amplitude sum (expanded and merged inside ACChecker)
+    {'netlist': ['V1 1 0 {(2 + a)*sin(2*t)}', 'R1 1 2 2', 'C1 2 0 {1/4}'], 'sym_subs': {'a': '3/2'},
+     'src': [{'name': 'V1', 'prefix': 'V1 1 0', 'desc': {'form': 't', 'terms': [{'f': 'sin', 'A': '7/2', 'k': 0, 'w': '2'}]}}]},
 ]
 for _c in CORPUS:
     _c.setdefault('tags', ['corpus'])
@@ -248,14 +251,64 @@ def gen_phasor_cases(rng, tier):
     for i in range(n):
         t = {'f': rng.choice(['cos', 'sin']), 'A': str(netgen.val(rng, 1, 7, (1, 1, 2, 3)) * rng.choice([1, 1, -1])),
              'k': rng.choice([0, 1, -1, 2]), 'w': str(rng.choice(OMEGAS))}
-        out.append({'mode': 'phasor', 'expr': term_text(t), 'term': t})
+        out.append({'mode': 'phasor', 'expr': term_text(t), 'term': t, 'w': t['w']})
     # symbolic / non-special phases for the search oracle only
     for i in range(10 if tier == 'quick' else 60):
         f = rng.choice(['cos', 'sin'])
         A = netgen.val(rng, 1, 7, (1, 2, 3))
         w = rng.choice(OMEGAS)
         ph = rng.choice(['1/3', '2', 'phi', '-5/7', 'pi/3', 'pi/4'])
-        out.append({'mode': 'phasor', 'expr': '%s*%s(%s*t + %s)' % (sym(A), f, sym(w), ph), 'oracle_only': True})
+        out.append({'mode': 'phasor', 'expr': '%s*%s(%s*t + %s)' % (sym(A), f, sym(w), ph), 'w': str(w), 'oracle_only': True})
+    # sinusoids that expand into several terms of ONE frequency (ACChecker._is_sum_ac: merged amplitude / phase,
+    # branches y == 0, x == 0, general): symbolic amplitude sums, phase-shifted pairs whose cos or sin parts cancel
+    for i in range(24 if tier == 'quick' else 150):
+        w = rng.choice(OMEGAS)
+        wt = '%s*t' % sym(w)
+        A, B = netgen.val(rng, 1, 6, (1, 1, 2)), netgen.val(rng, 1, 6, (1, 1, 3))
+        ph = rng.choice(['pi/3', 'pi/4', 'pi/6', 'pi/5', '1/2', 'phi'])
+        fam = i % 8
+        if fam == 0:
+            ex = '(%s + a)*sin(%s)' % (sym(A), wt)
+        elif fam == 1:
+            ex = '(%s + a)*cos(%s)' % (sym(A), wt)
+        elif fam == 2:       # cos parts cancel: 2 A cos(ph) sin(wt)
+            ex = '%s*sin(%s + %s) + %s*sin(%s - %s)' % (sym(A), wt, ph, sym(A), wt, ph)
+        elif fam == 3:       # sin parts cancel: 2 A cos(ph) cos(wt)
+            ex = '%s*cos(%s + %s) + %s*cos(%s - %s)' % (sym(A), wt, ph, sym(A), wt, ph)
+        elif fam == 4:       # cos parts cancel: -2 A sin(ph) sin(wt)
+            ex = '%s*cos(%s + %s) - %s*cos(%s - %s)' % (sym(A), wt, ph, sym(A), wt, ph)
+        elif fam == 5:       # sin parts cancel: 2 A sin(ph) cos(wt)
+            ex = '%s*sin(%s + %s) - %s*sin(%s - %s)' % (sym(A), wt, ph, sym(A), wt, ph)
+        elif fam == 6:       # general two-term sum
+            ex = '%s*sin(%s + %s) + %s*cos(%s - %s)' % (sym(A), wt, ph, sym(B), wt, rng.choice(['pi/7', '1/3', 'pi/3']))
+        else:                # three terms, symbolic amplitudes
+            ex = '(a + %s)*sin(%s) + b*sin(%s) - %s*sin(%s)' % (sym(A), wt, wt, sym(B), wt)
+        out.append({'mode': 'phasor', 'expr': ex, 'w': str(w), 'oracle_only': True, 'family': 'sum%d' % fam})
+    return out
+
+
+def gen_sym_cases(rng, tier):
+    """circuits whose sources are ONE product term with a symbolic amplitude sum, (A + a)*sin(w t): the term is expanded
+    inside ACChecker (merged by _is_sum_ac); results are compared by the oracle at a = a rational value"""
+    out = []
+    for i in range(6 if tier == 'quick' else 40):
+        nl = netgen.gen_netlist(rng, 's', size=rng.choice([2, 3]), extras=False)
+        w = rng.choice(OMEGAS)
+        aval = netgen.val(rng, 1, 5, (1, 2, 3))
+        lines, src = [], []
+        for l in nl['lines']:
+            p = l.split()
+            if re.match(r'^[VI]\d+$', p[0]):
+                A = netgen.val(rng, 1, 6, (1, 1, 2))
+                f = 'sin' if (i + len(src)) % 2 == 0 else 'cos'
+                prefix = ' '.join(p[:3])
+                lines.append('%s {(%s + a)*%s(%s*t)}' % (prefix, sym(A), f, sym(w)))
+                d = {'form': 't', 'terms': [{'f': f, 'A': str(A + aval), 'k': 0, 'w': str(w)}]}
+                src.append({'name': p[0], 'prefix': prefix, 'desc': d, 'P': src_P(d)})
+            else:
+                lines.append(l)
+        if src:
+            out.append({'netlist': lines, 'src': src, 'sym_subs': {'a': str(aval)}, 'tags': ['symbolic_amplitude']})
     return out
 
 
@@ -872,7 +925,7 @@ def run(tier='quick', replay=None):
         res.notes.append('the four real-number axioms are used only by theory/PhasorReal.v; all other C14 theorems are closed under the global context')
 
         # ---- correspondence + oracle ------------------------------------------------------
-        cases = [dict(c) for c in CORPUS] + gen_cases(rng, tier)
+        cases = [dict(c) for c in CORPUS] + gen_cases(rng, tier) + gen_sym_cases(rng, tier)
         pcases = gen_phasor_cases(rng, tier)
         ocases = ode_cases()
         if replay and 'case' in replay:
@@ -971,8 +1024,15 @@ def run(tier='quick', replay=None):
                     res.counterexamples.append({'case': pc, 'what': 'phasor() raised on a sinusoid: ' + pr['error'][:120]})
                 continue
             res.add_case('phasor:' + pc['expr'], True)
+            if pc.get('family'):
+                res.count('phasor_' + pc['family'])
             if pr.get('diff_zero') is False:
-                res.counterexamples.append({'case': pc, 'what': 'phasor(x).time() differs from x', 'time': pr.get('time_str')})
+                res.counterexamples.append({'case': pc, 'what': 'phasor(%s).time() differs from the sinusoid' % pc['expr'], 'reported': pr.get('time_str'), 'expected': pc['expr']})
+            if pr.get('expected_ok') is False:
+                res.counterexamples.append({'case': pc, 'what': 'phasor(%s) is not (cos coefficient) - j (sin coefficient)' % pc['expr'],
+                                            'reported': pr.get('got'), 'expected': pr.get('expected')})
+            if pr.get('expected_ok') is True:
+                res.count('phasor_value_checked_by_oracle')
             if pc.get('oracle_only') or not model_ok:
                 continue
             t = pc['term']
@@ -1033,7 +1093,7 @@ def run(tier='quick', replay=None):
 
         def fingerprint(case, what='', ladder=False):
             if case.get('mode') == 'phasor':
-                return 'phasor-roundtrip'
+                return 'phasor-roundtrip' + (':same-frequency-sum' if case.get('family') else '')
             if case.get('mode') == 'ode':
                 return 'ode-substitution:' + str(case.get('ode'))
             if what.startswith('transfer') and ladder:
